@@ -150,6 +150,11 @@ class Resolver:
         self.defs = def_index(body)
         self.roots = {}  # atom -> set(root locals)
         self.types = {}  # atom -> type string when known
+        self.paths = {}  # canonical place name -> (root local, field path)
+        self.extra = []  # facts guaranteed by iterators (enumerate / range indices)
+        self.iter_seen = set()
+        self.use_block = None
+        self.site_args = ()
 
     def single_def(self, l):
         ds = self.defs.get(l, [])
@@ -167,18 +172,22 @@ class Resolver:
         proj = [p for p in (pl.get("p") or [])]
         projs = "".join(p for p in proj if p != "*")
         if 1 <= l <= self.b["argc"] or self.is_named(l) or depth > 8:
+            self.paths[f"_{l}{projs}"] = (l, tuple(p for p in proj if p != "*"))
             return (f"_{l}{projs}", {l})
         d = self.single_def(l)
         if d is None:
+            self.paths[f"_{l}{projs}"] = (l, tuple(p for p in proj if p != "*"))
             return (f"_{l}{projs}", {l})
         kind, r, bb, _ = d
         if kind == "assign":
             rk = r.get("k")
             if rk == "ref" or rk == "rawptr":
                 n, roots = self.canon_place(r["pl"], depth + 1)
+                self._extend_path(n, projs, proj)
                 return (n + projs, roots | {l})
             if rk in ("use", "cast") and r["op"].get("k") in ("copy", "move"):
                 n, roots = self.canon_place(r["op"]["pl"], depth + 1)
+                self._extend_path(n, projs, proj)
                 return (n + projs, roots | {l})
         elif kind == "call":
             f = r["f"]
@@ -186,8 +195,15 @@ class Resolver:
                 p = f["fn"].get("rpath", f["fn"]["path"])
                 if TRANSPARENT.search(p) and r["a"] and r["a"][0].get("k") in ("copy", "move"):
                     n, roots = self.canon_place(r["a"][0]["pl"], depth + 1)
+                    self._extend_path(n, projs, proj)
                     return (n + projs, roots | {l})
+        self.paths[f"_{l}{projs}"] = (l, tuple(p for p in proj if p != "*"))
         return (f"_{l}{projs}", {l})
+
+    def _extend_path(self, n, projs, proj):
+        base = self.paths.get(n)
+        if base:
+            self.paths[n + projs] = (base[0], base[1] + tuple(p for p in proj if p != "*"))
 
     def lin(self, op, depth=0):
         """Linear expression of an integer operand, or None."""
@@ -229,6 +245,11 @@ class Resolver:
                         return None
                     if rk == "binop" and r["op"] in ("Add", "Sub", "AddUnchecked", "SubUnchecked"):
                         return None  # unchecked wrap-around arithmetic: no linear meaning
+                    if rk == "unop" and r["op"] == "PtrMetadata" and r["a"].get("k") in ("copy", "move"):
+                        n, roots = self.canon_place(r["a"]["pl"])
+                        atom = f"len({n})"
+                        self.roots[atom] = roots
+                        return Lin(0, {atom: 1})
                 elif kind == "call":
                     f = r["f"]
                     if f["k"] == "fn":
@@ -243,7 +264,78 @@ class Resolver:
         self.roots[atom] = roots
         if not proj:
             self.types[atom] = self.b["locals"][l]
+            self._iter_index_facts(l, atom)
         return Lin(0, {atom: 1})
+
+    def _iter_index_facts(self, l, atom):
+        """`i` bound from `Enumerate::next()` or `Range<usize>::next()`: record what the iterator guarantees."""
+        if atom in self.iter_seen:
+            return
+        self.iter_seen.add(atom)
+        d = self.single_def(l)
+        if not d or d[0] != "assign" or d[1].get("k") != "use" or d[1]["op"].get("k") not in ("copy", "move"):
+            return
+        src = d[1]["op"]["pl"]
+        sp = src.get("p") or []
+        nd = self.single_def(src["l"])
+        if not nd or nd[0] != "call" or nd[1]["f"].get("k") != "fn":
+            return
+        p = nd[1]["f"]["fn"].get("rpath", nd[1]["f"]["fn"]["path"])
+        if sp == ["as Some", ".0", ".0"] and re.search(r"Enumerate<I> as (std|core)::iter::(traits::iterator::)?Iterator>::next$", p):
+            # an enumerate() index counts items already yielded by an in-memory iterator: < isize::MAX
+            self.extra.append((Lin(-MAXLEN + 1, {atom: 1}), "lin", -1))
+            self.types[atom] = "usize"
+            return
+        if sp == ["as Some", ".0"] and re.search(r"Iterator for (std|core)::ops::Range<A>>::next$", p):
+            a0 = nd[1]["a"][0] if nd[1]["a"] else None
+            if not a0 or a0.get("k") not in ("copy", "move") or a0["pl"].get("p"):
+                return
+            it = a0["pl"]["l"]
+            for _ in range(6):  # &mut *(&mut iter) reborrow chains, `let mut iter = into_iter(..)`
+                md = self.single_def(it)
+                if md and md[0] == "assign" and md[1].get("k") == "ref" and all(x == "*" for x in (md[1]["pl"].get("p") or [])):
+                    it = md[1]["pl"]["l"]
+                elif md and md[0] == "assign" and md[1].get("k") == "use" and md[1]["op"].get("k") == "move" and not md[1]["op"]["pl"].get("p"):
+                    it = md[1]["op"]["pl"]["l"]
+                else:
+                    break
+            idefs = [x for x in self.defs.get(it, [])]
+            if len(idefs) != 1 or idefs[0][0] != "call":
+                return
+            ic = idefs[0][1]
+            if ic["f"].get("k") != "fn" or not ic["f"]["fn"].get("rpath", ic["f"]["fn"]["path"]).endswith("into_iter") or not ic["a"]:
+                return
+            ra = ic["a"][0]
+            if ra.get("k") not in ("copy", "move") or ra["pl"].get("p"):
+                return
+            rd = self.single_def(ra["pl"]["l"])
+            if not rd or rd[0] != "assign" or rd[1].get("k") != "agg" or not rd[1].get("adt", "").endswith("ops::Range"):
+                return
+            start, end = self.lin(rd[1]["ops"][0]), self.lin(rd[1]["ops"][1])
+            # only when every atom of the bounds is rooted in immutable state (shared-ref params)
+            rblock = rd[2]
+
+            def immut(lin):
+                # the bounds must still describe the same memory at the use: roots are shared-ref parameters, or
+                # locals that are not written / mutably borrowed between the construction of the range and the use
+                roots = set()
+                for a in lin.t:
+                    roots |= self.roots.get(a, set())
+                return self.use_block is not None and _stable(self.b, self, roots, -1, rblock, self.use_block, self.site_args)
+            if end is not None and immut(end):
+                self.extra.append((Lin(1, {atom: 1}).add(end, -1), "lin", -1))  # i + 1 - end <= 0
+            if start is not None and immut(start):
+                self.extra.append((start.add(Lin(0, {atom: 1}), -1), "lin", -1))  # start - i <= 0
+
+    def _ever_mut_borrowed(self, l):
+        for blk in self.b["blocks"]:
+            for st in blk["s"]:
+                r = st["r"]
+                if r.get("k") in ("ref", "rawptr") and r.get("mut") and r["pl"]["l"] == l:
+                    return True
+                if st["d"]["l"] == l and st["d"].get("p"):
+                    return True
+        return False
 
     def unsigned(self, atom):
         if atom.startswith("len("):
@@ -259,21 +351,38 @@ class Resolver:
 
 
 # ---------------------------------------------------------------------------------------------- facts
-def _stable(body, res, roots, D, S, B):
+def _stable(body, res, roots, D, S, B, site_arg_locals=()):
     """No definition / mutation of any root local on a path from the guard edge to the use."""
     blocks = between(body, S, B, D)
+    # field paths of the memory the facts talk about, per root local
+    watched = defaultdict(list)
+    for nm, (rl, path) in res.paths.items():
+        watched[rl].append(path)
+
+    def overlaps(l, mproj):
+        mp = tuple(p for p in (mproj or []) if p != "*")
+        ps = watched.get(l)
+        if not ps:
+            return True
+        for path in ps:
+            k = min(len(path), len(mp))
+            if path[:k] == mp[:k]:
+                return True
+        return False
+
     for l in roots:
         ty = body["locals"][l]
         immutable_param = 1 <= l <= body["argc"] and ty.startswith("&") and not ty.startswith("&mut")
         for bi in blocks:
             blk = body["blocks"][bi]
             for s in blk["s"]:
-                if s["d"]["l"] == l:
+                if s["d"]["l"] == l and overlaps(l, s["d"].get("p")):
                     # a (re)definition between guard and use
-                    if not (bi == B and False):
-                        return False
+                    return False
                 r = s["r"]
-                if r.get("k") in ("ref", "rawptr") and r.get("mut") and r["pl"]["l"] == l and not immutable_param:
+                if r.get("k") in ("ref", "rawptr") and r.get("mut") and r["pl"]["l"] == l and not immutable_param and overlaps(l, r["pl"].get("p")):
+                    if bi == B and s["d"]["l"] in site_arg_locals and not s["d"].get("p"):
+                        continue  # the borrow handed to the panic-source call itself
                     return False
             t = blk.get("t") or {}
             if bi != B and t.get("k") == "call":
@@ -409,8 +518,10 @@ def _place_type(body, pl):
     return None
 
 
-def facts_at(body, B):
+def facts_at(body, B, site_arg_locals=()):
     res = Resolver(body)
+    res.use_block = B
+    res.site_args = site_arg_locals
     lin_facts, var_facts = [], []
     for (D, S, vals) in dominating_edges(body, B):
         for f in switch_facts(body, res, D, vals):
@@ -418,10 +529,10 @@ def facts_at(body, B):
                 roots = set()
                 for a in f[1].t:
                     roots |= res.roots.get(a, set())
-                if _stable(body, res, roots, D, S, B):
+                if _stable(body, res, roots, D, S, B, site_arg_locals):
                     lin_facts.append((f[1], f[0], D))
             elif f[0] == "variant":
-                if _stable(body, res, f[2], D, S, B):
+                if _stable(body, res, f[2], D, S, B, site_arg_locals):
                     var_facts.append((f[1], f[3], f[4], D))
     return res, lin_facts, var_facts
 
@@ -480,6 +591,17 @@ def prove(lin_facts, goal, unsigned_atoms):
     return dist[x] <= need
 
 
+class _WithExtra(list):
+    """lin facts + the iterator facts the resolver discovers while linearising the goal (evaluated lazily)."""
+
+    def __init__(self, base, res):
+        super().__init__(base)
+        self.res = res
+
+    def __iter__(self):
+        return iter(list(super().__iter__()) + list(self.res.extra))
+
+
 # ---------------------------------------------------------------------------------------------- goals
 def _arg_place(res, op):
     if op.get("k") in ("copy", "move"):
@@ -508,7 +630,13 @@ def _range_bounds(body, res, op):
 
 def discharge(fb, body, s):
     B = s["bb"]
-    res, lin_facts, var_facts = facts_at(body, B)
+    site_args = set()
+    if s["kind"] == "call":
+        for a in s["call"].args:
+            if a.get("k") in ("copy", "move") and not a["pl"].get("p"):
+                site_args.add(a["pl"]["l"])
+    res, lin_facts, var_facts = facts_at(body, B, site_args)
+    lin_facts = _WithExtra(lin_facts, res)
     unsigned = res.unsigned
     w = s["what"]
     if s["kind"] == "call":
